@@ -8,6 +8,15 @@ The generator enumerates only the root family (and, in the thorough tier, a dept
 sub-tree); inside one contract function *every* shape of the family and, per shape, *every* target key path
 (existing leaf, interior node, fresh dict key, fresh nested path, index-append) is covered.
 The oracle is an independent pure-python reference (ref_nodes/ref_get/ref_set/ref_map/same) - it never calls the library.
+
+Cost model (measured): a traced library call costs 5 ms (read) .. 23 ms (copying set) under CrossHair, a path 0.03 s
+plus its library calls. Therefore the oracle runs with opcode tracing switched off (NoTracing) and only the builder and
+the library calls are traced (see "tracing discipline" in the prelude); the quick tier trims the most expensive families
+(flag _FULL = 0: restricted pair set for two successive sets, fewer multi-key forms, children without nested empties for
+the heavy families) - the thorough tier runs everything (_FULL = 1) and adds the depth-3 frames.
+
+Obligation families (one contract function per family and root kind / frame):
+  set_leaf set_struct fresh hist items apply two inplace special  + empty_roots root_scalar np_interior apply_mask.
 """
 import os
 
@@ -363,8 +372,7 @@ def fam_apply(t, v):
 
 # ---- law: sequences of two copying sets --------------------------------------------------------------------------
 @oracle
-def fam_two(t, a, b, kinds):
-  allpairs = _FULL
+def fam_two(t, a, b, kinds, allpairs):
   snap = ref_copy(t); before = ref_nodes(t)
   tg = targets(t, kinds)
   leafs = targets(t, ('leaf',))
@@ -565,7 +573,7 @@ def templates(tier):
 
 # family -> (extra symbolic ints, call, heavy). Heavy families use the smaller child-choice range in the quick tier.
 FAMILIES = {   # heaviest first (they are started first)
-    'two': (['a', 'b'], "fam_two(t, a, b, ('leaf', 'fresh', 'append'))", True),
+    'two': (['a', 'b'], "fam_two(t, a, b, ('leaf', 'fresh', 'append'), AP)", True),
     'hist': (['v'], 'fam_hist(t, v)', True),
     'special': (['a', 'b'], 'fam_special(t, a, b)', True),
     'items': (['v'], 'fam_items(t, v)', False),
@@ -577,14 +585,20 @@ FAMILIES = {   # heaviest first (they are started first)
 }
 
 
-def gen(tier, cmax, cmax_heavy, full):
+def gen(tier, cmax, cmax_heavy, full, cmax_heavy_d3=6):
   F = xh.fn
   s = [PRELUDE, f'_FULL = {int(full)}   # 1: thorough tier (all pairs / all selections / all forms)']
   A = s.append
   for tag, expr, nc, nl, pre in templates(tier):
+    d3 = tag.startswith('d3_')
     for fam, (extra, call, heavy) in FAMILIES.items():
-      cm = cmax_heavy if heavy else cmax
-      A(F(f'ob_{fam}_{tag}', _args(nc, nl, extra), f'{pre} and 0 <= c1 <= {cm} and 0 <= c2 <= {cm}', f"""
+      # depth-3 frames (thorough tier): heavy families keep the smaller child range and the restricted pair set
+      cm = (cmax_heavy_d3 if d3 else cmax_heavy) if heavy else cmax
+      call = call.replace('AP', '0' if d3 else '_FULL')
+      # the two most expensive families are split by the root choice of T on the depth-3 frames (balance, timeout margin)
+      splits = [('_c02', '0 <= c0 <= 2'), ('_c34', '3 <= c0 <= 4'), ('_c59', '5 <= c0 <= 9')] if d3 and fam in ('two', 'hist') else [('', pre)]
+      for sfx, pre0 in splits:
+        A(F(f'ob_{fam}_{tag}{sfx}', _args(nc, nl, extra), f'{pre0} and 0 <= c1 <= {cm} and 0 <= c2 <= {cm}', f"""
       t = {expr}
       return {call}"""))
   A(F('ob_empty_roots', 'v: int', 'True', 'return fam_empty_roots(v)'))
@@ -618,22 +632,68 @@ def classify(name, call):
 
 def run(tier):
   rep = common.Report('C18', tier, 'other',
-                      'Bounded symbolic execution (CrossHair/z3) of the real TreeMapView code: tree shapes are chosen by symbolic choice '
-                      'integers (solver decides path feasibility per shape), integer leaves and set values are symbolic; every target path of every '
-                      'shape is checked against an independent pure-python reference; "discharged" = "Confirmed over all paths"; counterexamples '
-                      'are replayed concretely.')
+                      'Bounded symbolic execution (CrossHair/z3) of the real TreeMapView code. Tree shapes are chosen by symbolic choice '
+                      'integers (the solver decides which shapes are feasible and CrossHair explores every one of them), integer leaves and '
+                      'the values that are set are symbolic ints; per shape every target key path is checked against an independent '
+                      'pure-python reference semantics (functional update, leaf enumeration, leaf map) plus object-identity frame conditions. '
+                      '"discharged" = CrossHair reported "Confirmed over all paths"; counterexamples are replayed concretely before being reported.')
   from ml_metrics._src.chainables import tree
   V = tree.TreeMapView
   rep.encoded(V.__getitem__, V._TreeMapView__get, V.get, V.__iter__, V.__len__, V.keys, V.values, V._set_by_path, V.set,
-              V.copy_and_set, V.copy_and_update, V.__or__, V.apply, V.as_view, tree._default_tree, tree._dfs_iter_tree,
-              tree.normalize_keys, tree.apply_mask)
+              V.__setitem__, V.copy_and_set, V.copy_and_update, V.__or__, V.apply, V.as_view, V._maybe_map,
+              tree._default_tree, tree._dfs_iter_tree, tree._is_key, tree.apply_mask)
   if tier == 'quick':
     p = dict(cmax=9, cmax_heavy=6, full=0)
     timeout = 180
   else:
-    p = dict(cmax=9, cmax_heavy=9, full=1)
+    p = dict(cmax=9, cmax_heavy=9, full=1, cmax_heavy_d3=6)
     timeout = 1200
-  rep.bounds(tier=tier, depth=2 if tier == 'quick' else 3, per_condition_timeout_s=timeout, **p)
+  rep.bounds(
+      per_condition_timeout_s=timeout, **p,
+      shapes='node choice: 0 int leaf | 1 {a} | 2 {a,b} | 3 [.] | 4 [.,.] | 5 (.,) | 6 (.,.) | 7 {} | 8 [] | 9 (); root = non-empty dict/list/tuple '
+             '(one contract function per root family), children chosen by symbolic ints in 0..cmax (heavy families two/hist/special/set_struct: '
+             '0..cmax_heavy), depth 2' + ('' if tier == 'quick' else
+             '; plus 9 depth-3 frames {a:T} {a:T,b:leaf} {a:leaf,b:T} [T] [T,leaf] [leaf,T] (T,) (T,leaf) (leaf,T) around a symbolic depth-2 '
+             'sub-tree T (any of the 10 choices at its root; heavy families: children 0..cmax_heavy_d3 and restricted pairs)'),
+      targets='per shape: every existing leaf path, every interior node path, a fresh key at every dict node, fresh nested paths (c,d) / (c,[0]) / '
+              '([n],d) / ([n],[0]) at every container, index-append at every list and tuple (incl. nested empty ones)',
+      values='every int leaf, every set value: unbounded symbolic int; sub-tree values [v], {z: v}, (v, v), {z: [v]}',
+      laws=dict(
+          set_leaf='get-after-copy_and_set (4 API forms: copy_and_set, copy_and_update, |, set(in_place=False)); every other node of the original is '
+                   'the IDENTICAL object in the result and is read back identically through the view; original == deep snapshot and every node of it is still '
+                   'the same object; result == reference update (container types preserved); set-to-current-value leaves data equal',
+          set_struct='same laws for sub-tree -> leaf and leaf -> sub-tree replacement; no-op law on interior nodes',
+          fresh='same laws for fresh dict keys / nested default trees / index-append; other absent paths stay absent (get default)',
+          hist='history "inspect the view (len | keys | items), then derive a copy that changes the structure": keys()/len() of the derived and of the '
+               'source view list exactly the leaves; same for in-place set on an inspected view',
+          items='keys()/items()/values()/iter()/len(): every leaf exactly once, path reads back the identical leaf; single-key reads of every node via '
+                'Key path / plain key / path+SELF / Literal; multi-key reads (tuple, reversed tuple' + (', list' if tier != 'quick' else '') + ') aligned with the keys; key_paths selection',
+          apply='apply(map_fn) == reference leaf map (every leaf incl. nested empty containers, only leaves), original untouched; apply() without function '
+                'is the data; reads through a mapping view; apply on a key_paths selection maps exactly the selected leaf (' +
+                ('every leaf' if tier != 'quick' else 'first and last leaf') + ' as selection)',
+          two='two successive copy_and_set (pairs of targets: ' + ('all pairs at depth 2; ' if tier != 'quick' else '') +
+              'at least one existing leaf, or the same target twice): final == reference, original and the intermediate view untouched at every depth, '
+              'untouched nodes shared with both; multi-key copy_and_set / copy_and_update(dict) / | (pairs) equal the sequence',
+          inplace='in-place set/__setitem__: returns the view, root and every container on and off the path keep their identity, result == copying set; '
+                  'refusal (KeyError/TypeError) accepted only with a tuple on the path',
+          special='Key() / SELF / (SELF,) as set path replace the root; () sets nothing; SKIP drops the value (alone and inside multi-key sets); '
+                  'path+SELF; single key in a tuple; one key with several values',
+          extra='empty roots {} [] () and the data-less view; scalar root; numpy arrays as interior nodes (concrete structure); apply_mask'))
+  rep.outside(
+      'trees deeper than the depth bound / fan-out > 2 / dict keys other than a, b (fresh: c, d, z)',
+      'numpy arrays as interior nodes with symbolic content: CrossHair cannot keep ints symbolic inside numpy; ob_np_interior uses a fixed '
+      'structure ({a:1, b:[array([1,2,3]), [2,3,4]]}, 2x3 array as root, {w: zeros(3)}), all element positions, set value enumerated by the solver in 0..2',
+      'Literal as a key of a *set* operation (only reads are claimed)', 'negative / out-of-range indices and other failing key paths (error behaviour is not part of the property)',
+      'a falsy scalar as the root of a view (TreeMapView(0) lists no key; scalar roots are outside "nested mapping/sequence"; ob_root_scalar assumes root != 0)',
+      'strict=True views, DataFrame-like MapLikes, str leaves',
+      'in-place set(Key()/SELF) on the root (returns the unchanged view by construction)')
+  rep.assume(
+      'oracle code (reference semantics, identity comparisons) runs with CrossHair opcode tracing switched off (crosshair.tracers.NoTracing); the tree builder and '
+      'every library call run traced (ResumedTracing); comparisons of symbolic leaf values are traced solver queries',
+      'container classification in the oracle honours CrossHair proxy objects (__ch_pytype__), e.g. the ShellMutableMap returned by a traced dict(x)',
+      'in-place sets that may be refused (tuple on the path) use the concrete value 12345: the library formats the value into the error message and '
+      'CrossHair cannot format symbolic ints', 'crosshair.realize enumerates the set value in ob_np_interior',
+      'CrossHair 0.0.110 + z3 sound for int/dict/list/tuple/match-statement semantics; CPython 3.12')
   only = os.environ.get('VF_ONLY')
   xh.run_module(rep, gen(tier, **p), 'c18_h', timeout, classify=classify, only=(lambda n: only in n) if only else None)
   return rep.finish()
